@@ -377,7 +377,7 @@ func H08Split() {
 	rows := make([]row, n)
 	keys := make([]Key, n)
 	for i := 0; i < n; i++ {
-		s := []string{"rsx", "rsy"}[vndChoice("str", 2)]
+		s := []string{"rsx", "rsy"}[vndChoice("str", vndParam("strings"))]
 		k := vndChoice("split", 4)
 		rows[i] = row{s[:k], s[k:]}
 		res := &benchfmt.Result{Name: benchfmt.Name("B"), Iters: 1, Values: []benchfmt.Value{{Value: 1, Unit: "u"}}}
